@@ -263,6 +263,9 @@ double SQuIDS::GetExpectationValue(SU_vector op, unsigned int nrh, unsigned int 
 }
 
 double SQuIDS::GetExpectationValue(SU_vector op, unsigned int nrh, unsigned int i, double scale, std::vector<bool>& avr) const {
+  //the evolution buffer below is sized by the system, and Evolve(buffer) cannot check that
+  if(op.Dim()!=nsun)
+    throw std::runtime_error("SQUIDS::GetExpectationValue : operator dimension does not match the dimension of the system");
   SU_vector h0=H0(x[i],nrh);
   std::unique_ptr<double[]> evol_buf(new double[h0.GetEvolveBufferSize()]);
   h0.PrepareEvolve(evol_buf.get(),t-t_ini,scale,avr);
@@ -325,6 +328,9 @@ double SQuIDS::GetExpectationValueD(const SU_vector& op, unsigned int nrh, doubl
 double SQuIDS::GetExpectationValueD(const SU_vector& op, unsigned int nrh, double xi,
                                     SQuIDS::expectationValueDBuffer& buf,
                                     double scale, std::vector<bool>& avr) const{
+  //the evolution buffer below is sized by the system, and Evolve(buffer) cannot check that
+  if(op.Dim()!=nsun)
+    throw std::runtime_error("SQUIDS::GetExpectationValueD : operator dimension does not match the dimension of the system");
   //find bracketing state entries
   auto xit=std::lower_bound(x.begin(),x.end(),xi);
   if(xit==x.end() || (xit==x.begin() && xi<*xit))
